@@ -403,3 +403,49 @@ func (s *SubLog) For(chid datatransfer.ChannelID) []SEvent {
 	}
 	return out
 }
+
+// ---------------------------------------------------------------- fake channel state
+
+// FakeState is a ChannelState with harness-chosen contents (for driving components that only
+// read states, e.g. the channel monitor).
+type FakeState struct {
+	ID  datatransfer.ChannelID
+	Me  peer.ID
+	St  datatransfer.Status
+	Msg string
+}
+
+var _ datatransfer.ChannelState = FakeState{}
+
+func (f FakeState) TransferID() datatransfer.TransferID         { return f.ID.ID }
+func (f FakeState) BaseCID() cid.Cid                            { return cid.Undef }
+func (f FakeState) Selector() datamodel.Node                    { return nil }
+func (f FakeState) Voucher() datatransfer.TypedVoucher          { return datatransfer.TypedVoucher{} }
+func (f FakeState) Sender() peer.ID                             { return f.ID.Initiator }
+func (f FakeState) Recipient() peer.ID                          { return f.ID.Responder }
+func (f FakeState) TotalSize() uint64                           { return 0 }
+func (f FakeState) IsPull() bool                                { return false }
+func (f FakeState) ChannelID() datatransfer.ChannelID           { return f.ID }
+func (f FakeState) OtherPeer() peer.ID                          { return f.ID.OtherParty(f.Me) }
+func (f FakeState) SelfPeer() peer.ID                           { return f.Me }
+func (f FakeState) Status() datatransfer.Status                 { return f.St }
+func (f FakeState) Sent() uint64                                { return 0 }
+func (f FakeState) Received() uint64                            { return 0 }
+func (f FakeState) Message() string                             { return f.Msg }
+func (f FakeState) Vouchers() []datatransfer.TypedVoucher       { return nil }
+func (f FakeState) VoucherResults() []datatransfer.TypedVoucher { return nil }
+func (f FakeState) LastVoucher() datatransfer.TypedVoucher      { return datatransfer.TypedVoucher{} }
+func (f FakeState) LastVoucherResult() datatransfer.TypedVoucher {
+	return datatransfer.TypedVoucher{}
+}
+func (f FakeState) ReceivedCidsTotal() int64            { return 0 }
+func (f FakeState) QueuedCidsTotal() int64              { return 0 }
+func (f FakeState) SentCidsTotal() int64                { return 0 }
+func (f FakeState) Queued() uint64                      { return 0 }
+func (f FakeState) DataLimit() uint64                   { return 0 }
+func (f FakeState) RequiresFinalization() bool          { return false }
+func (f FakeState) InitiatorPaused() bool               { return false }
+func (f FakeState) ResponderPaused() bool               { return false }
+func (f FakeState) BothPaused() bool                    { return false }
+func (f FakeState) SelfPaused() bool                    { return false }
+func (f FakeState) Stages() *datatransfer.ChannelStages { return &datatransfer.ChannelStages{} }
